@@ -129,81 +129,10 @@ Why(kind, w, client, server) ==
   ELSE "ok"
 Ok(kind, w, client, server) == Why(kind, w, client, server) = "ok"
 
-\* =========================================================================================
-\* 5. Input universe (generated by TLC), self test, verdict
-\* =========================================================================================
-Words(A, n) == UNION { [1..k -> A] : k \in 0..n }
+Words(A, n) == UNION { [1..k -> A] : k \in 0..n }     \* all words over A up to length n
 Rep(tok, n) == [k \in 1..n |-> tok]
 
-DSet    == IF IOEnv.SZ_DSET = "q" THEN {"0", "1", "5", "9"} ELSE {"0", "1", "3", "5", "9"}
-ILen    == atoi(IOEnv.SZ_ILEN)
-FLen    == atoi(IOEnv.SZ_FLEN)
-FullLen == atoi(IOEnv.SZ_FULL)
-CoreLen == atoi(IOEnv.SZ_CORE)
-
-Endings == UnitSuffixes("cpu") \cup UnitSuffixes("memory")
-Bodies(il, fl) == { ip \o r : ip \in Words(DSet, il), r \in {<<>>} \cup { <<".">> \o fp : fp \in Words(DSet, fl) } }
-\* (a) numbers x endings: exactness.  Includes the empty body and "1." (not in the grammar).
-UnivA == { b \o e : b \in Bodies(ILen, FLen), e \in Endings }
-UnivPlus == { <<"+">> \o b \o e : b \in Bodies(1, 1), e \in Endings }
-\* (b) all words over the token alphabets: the grammar, client/server agreement
-FullTok == {"+", "-", "1", ".", "m", "K", "i", "B", "SP", "NL", "e", "k"}
-CoreTok == {"+", "7", ".", "m", "G", "i", "B"}
-UnivB == Words(FullTok, FullLen) \cup Words(CoreTok, CoreLen)
-\* (c) long numbers (beyond float precision), every digit, tier names
-Long == { Rep("9", 20),
-          <<"1">> \o Rep("0", 21) \o <<"1">>,
-          <<"9","0","0","7","1","9","9","2","5","4","7","4","0","9","9","3">>,
-          <<"0", ".">> \o Rep("0", 21) \o <<"1">>,
-          <<"0", ".", "1">> \o Rep("0", 20) \o <<"1">>,
-          <<".">> \o Rep("3", 18),
-          <<"1", ".">> \o Rep("0", 16) \o <<"1">>,
-          <<"1","2","3","4","5","6","7","8","9",".","9","8","7","6","5","4","3","2","1">>,
-          <<"0","0","0","4","2">>,
-          <<"2","4","6","8",".","3","6","7">> }
-UnivC == { b \o e : b \in Long, e \in Endings } \cup { <<t>> : t \in Tiers }
-         \cup { <<a, b>> \o e : a \in DigitTok, b \in DigitTok, e \in {<<>>, <<"m">>, <<"K">>, <<"M", "i">>} }
-         \cup { <<".", a, b, c>> \o e : a \in {"0", "2", "4"}, b \in {"6", "7", "8"}, c \in DigitTok, e \in Endings }
-Inputs == UnivA \cup UnivPlus \cup UnivB \cup UnivC
-
-\* The digit arithmetic agrees with TLC's native integers wherever those suffice, and a few landmark
-\* values are what a reader expects (guards against a specification that is wrong or vacuous).
-SelfTest ==
-  /\ \A n \in 0..300, m \in {1, 7, 1000, 1024} : LEToNat(MulLE(NatToLE(n), m, 0)) = n * m
-  /\ \A n \in 0..1200, f \in 0..4 :
-        LET p10 == CASE f = 0 -> 1 [] f = 1 -> 10 [] f = 2 -> 100 [] f = 3 -> 1000 [] f = 4 -> 10000 IN
-        /\ LEToNat(FloorDiv10(NatToLE(n), f)) = n \div p10
-        /\ LEToNat(CeilDiv10(NatToLE(n), f)) = (n + p10 - 1) \div p10
-  /\ \A n \in 0..120 : LEToNat(IncLE(NatToLE(n))) = n + 1
-  /\ LEToNat(MulPow(NatToLE(2), 1024, 2)) = 2097152
-  /\ ExpectedCpu(Scan("cpu", <<"1", ".", "0", "0", "1">>)) = <<1, 0, 0, 1>>
-  /\ ExpectedCpu(Scan("cpu", <<"2", "5", "0", "m">>)) = <<2, 5, 0>>
-  /\ ExpectedCpu(Scan("cpu", <<".", "0", "0", "0", "9">>)) = <<0>>
-  /\ ExpectedCpu(Scan("cpu", <<"1", ".", "9", "m">>)) = <<1>>
-  /\ ExpectedBytes(Scan("memory", <<"1", "G", "i">>)) = <<1, 0, 7, 3, 7, 4, 1, 8, 2, 4>>
-  /\ ExpectedBytes(Scan("memory", <<".", "0", "1", "5", "9", "M">>)) = <<1, 5, 9, 0, 0>>
-  /\ ExpectedBytes(Scan("storage", <<"0", ".", "3", "G", "i", "B">>)) = <<3, 2, 2, 1, 2, 2, 5, 4, 8>>
-  /\ ExpectedBytes(Scan("storage", <<"1", "P", "i">>)) = <<1, 1, 2, 5, 8, 9, 9, 9, 0, 6, 8, 4, 2, 6, 2, 4>>
-  /\ ExpectedBytes(Scan("memory", <<"0", ".", "0", "0", "1">>)) = <<1>>
-  /\ ExpectedBytes(Scan("memory", <<"0">>)) = <<0>>
-  /\ Accepts("cpu", <<"+", ".", "5", "m">>) /\ ~Accepts("cpu", <<"1", ".">>) /\ ~Accepts("cpu", <<"1", "G">>)
-  /\ Accepts("memory", <<"1", "K", "i", "B">>) /\ ~Accepts("memory", <<"1", "i">>) /\ ~Accepts("memory", <<"1", "m">>)
-  /\ \A k \in Kinds, w \in Words({"+", "1", ".", "m", "K", "i", "B"}, 4) : Accepts(k, w) = InGrammar(k, w)
-
-Gen == /\ SelfTest
-       /\ ndJsonSerialize(IOEnv.SZ_INPUTS, SetToSeq({ [w |-> w] : w \in Inputs }))
-
-\* cases: [w, cpu, memory, storage (client records), vcpu, vmemory, vstorage (server booleans)]
-Cases == ndJsonDeserialize(IOEnv.SZ_CASES)
-WhyCase(c) == [cpu     |-> Why("cpu", c.w, c.cpu, c.vcpu),
-               memory  |-> Why("memory", c.w, c.memory, c.vmemory),
-               storage |-> Why("storage", c.w, c.storage, c.vstorage)]
-Verdict ==
-  LET N    == Len(Cases)
-      Res  == [i \in 1..N |-> WhyCase(Cases[i])]
-      Bad  == { i \in 1..N : \E k \in Kinds : Res[i][k] # "ok" }
-  IN JsonSerialize(IOEnv.SZ_VERDICT,
-       [n |-> N,
-        in_grammar |-> [k \in Kinds |-> Cardinality({ i \in 1..N : Accepts(k, Cases[i].w) })],
-        bad |-> SetToSeq({ [i |-> i, why |-> Res[i]] : i \in Bad })])
+(* The input universe, the self test of this module and the generator are in SizeParseGen.tla, the verdict over
+   recorded calls in SizeParseVerdict.tla (TLC evaluates constant definitions eagerly; keeping them apart
+   keeps each evaluation cheap). *)
 =============================================================================
